@@ -407,9 +407,14 @@ impl IntoLower for ast::FnCall {
     type Output = ir::Expression;
 
     fn into_lower(&self, ctx: &Context) -> Result<Self::Output, Error> {
-        let function_name = &self.callee.value;
+        // a user-defined asset shadows a built-in function of the same name, exactly as it does
+        // when the analyzer resolves the callee
+        let function_name = match self.callee.symbol {
+            Some(ast::Symbol::AssetDef(_)) => "",
+            _ => self.callee.value.as_str(),
+        };
 
-        match function_name.as_str() {
+        match function_name {
             "min_utxo" => {
                 if self.args.len() != 1 {
                     return Err(Error::InvalidAst(format!(
